@@ -15,7 +15,7 @@ impl Prop for C13Prop {
         "C13"
     }
     fn rule(&self) -> &'static str {
-        "three streams. (1) programs over scripted commands (straight-line, goto-label and goto-line loops incl. loops that never end by themselves, handled errors with on_error) in which the k-th command invocation raises the embedder's halt flag, for k drawn over every boundary of the run; the run must return Ok with exactly the invocations up to and including the k-th in the log and the variables as they were then. Observed: call log, final variables, Ok/Err. (2) c13s: structured SDK programs of C05's generator (if/elseif/else, while, for-in, functions, functions in condition position = nested evaluator) in which one `emit` is `emit __halt__`, which raises the flag from inside; compared with the halt-aware model (Sdk/FlowHalt.lean); relation: the run returns Ok and nothing is emitted after it. (3) c13t: loop shapes that never end by themselves (goto, while over a value, while over a command condition, nested for-in over ranges, a goto-only loop, an empty while inside a function in condition position; and — in a child process with capped memory — loops of the nested evaluator made of jumps only: two functions calling each other for ever under if / not / while, scoped or not) with a SECOND THREAD raising the flag after 0-3000 us; relation: returns Ok within the time limit and at most one `tick` observed the flag set. Non-trivial = the flag is raised and at least one instruction would have followed; distinct = distinct request."
+        "three streams. (1) programs over scripted commands (straight-line, goto-label and goto-line loops incl. loops that never end by themselves, handled errors with on_error) in which the k-th command invocation raises the embedder's halt flag, for k drawn over every boundary of the run; the run must return Ok with exactly the invocations up to and including the k-th in the log and the variables as they were then. Observed: call log, final variables, Ok/Err. (2) c13s: structured SDK programs of C05's generator (if/elseif/else, while, for-in, functions, functions in condition position = nested evaluator) in which one `emit` is `emit __halt__`, which raises the flag from inside; compared with the halt-aware model (Sdk/FlowHalt.lean); relation: the run returns Ok and nothing is emitted after it. (3) c13t: loop shapes that never end by themselves (goto, while over a value, while over a command condition, nested for-in over ranges, a goto-only loop, an empty while inside a function in condition position, a looping test run by `test_file` as a sub-run, also with exit_on_error on; and — in a child process with capped memory — loops of the nested evaluator made of jumps only: two functions calling each other for ever under if / not / while, scoped or not) with a SECOND THREAD raising the flag after 0-3000 us; relation: returns Ok within the time limit and at most one `tick` observed the flag set. Non-trivial = the flag is raised and at least one instruction would have followed; distinct = distinct request."
     }
     fn budget(&self, tier: Tier) -> usize {
         match tier {
@@ -33,7 +33,7 @@ impl Prop for C13Prop {
             if rng.chance(1, 5) {
                 return Case { req: format!("c13t {} {}", 100 + rng.below(CHILD_LOOPS.len()), 1 + rng.below(20)), in_domain: true, nontrivial: true, tags: vec!["second-thread", "child-process"] };
             }
-            let shape = rng.below(6);
+            let shape = rng.below(8);
             let delay_us = rng.below(3000);
             return Case { req: format!("c13t {} {}", shape, delay_us), in_domain: true, nontrivial: true, tags: vec!["second-thread"] };
         }
@@ -187,7 +187,7 @@ fn gen_structured_halt(rng: &mut Rng) -> Case {
 
 /// loops that never end by themselves: goto, while over a value, while over a command
 /// condition (nested evaluator), for-in over a large range with an inner if
-const LOOPS: [&str; 6] = [
+const LOOPS: [&str; 8] = [
     ":top\ntick\ngoto :top\n",
     "while true\n  tick\nend\n",
     "while not tick\n  x = set 1\nend\n",
@@ -196,6 +196,10 @@ const LOOPS: [&str; 6] = [
     // and in the nested evaluator (a function in condition position)
     ":top\ngoto :top\n",
     "fn spin\n  while true\n  end\nend\nwhile spin\nend\n",
+    // a SUB-RUN started by a command (`test_file` runs every test function of a file as a script of
+    // its own): `@TESTFILE` = a file whose test loops for ever; with exit_on_error on in the second
+    "r = test_file @TESTFILE\n",
+    "exit_on_error true\nr = test_file @TESTFILE test_spin\n",
 ];
 /// jump-only loops of the NESTED evaluator (labels are not available there; a function call and a
 /// function's `end` are jumps): two functions calling each other for ever.  Every round pushes a
@@ -257,13 +261,23 @@ fn run_second_thread(shape: usize, delay_us: u64) -> String {
     }
     // the run itself happens on a thread of its own: an implementation that never comes back is
     // reported (`sched hang`) instead of hanging the check
+    // (a shape that hung once is not run again in this process: every hang leaves a thread
+    // behind that spins for ever)
+    static HUNG: std::sync::atomic::AtomicU64 = std::sync::atomic::AtomicU64::new(0);
+    let bit = 1u64 << (shape % 64);
+    if HUNG.load(std::sync::atomic::Ordering::SeqCst) & bit != 0 {
+        return "sched hang (this shape hung before in this run; not repeated)".to_string();
+    }
     let (tx, rx) = std::sync::mpsc::channel();
     std::thread::spawn(move || {
         let _ = tx.send(run_second_thread_here(shape, delay_us));
     });
     match rx.recv_timeout(std::time::Duration::from_secs(12)) {
         Ok(s) => s,
-        Err(_) => "sched hang".to_string(),
+        Err(_) => {
+            HUNG.fetch_or(bit, std::sync::atomic::Ordering::SeqCst);
+            "sched hang".to_string()
+        }
     }
 }
 
@@ -294,10 +308,23 @@ fn run_second_thread_here(shape: usize, delay_us: u64) -> String {
             h2.store(true, Ordering::SeqCst);
         }
     });
-    let text = LOOPS[shape % LOOPS.len()];
+    let text = LOOPS[shape % LOOPS.len()].to_string();
+    let mut test_file = None;
+    let text = if text.contains("@TESTFILE") {
+        static N: AtomicUsize = AtomicUsize::new(0);
+        let f = std::env::temp_dir().join(format!("duck-c13-testfile-{}-{}.ds", std::process::id(), N.fetch_add(1, Ordering::SeqCst)));
+        let _ = std::fs::write(&f, "fn test_spin\n  while true\n    tick\n  end\nend\n");
+        let t = text.replace("@TESTFILE", &f.to_string_lossy());
+        test_file = Some(f);
+        t
+    } else { text };
+    let text = text.as_str();
     let res = duckscript::runner::run_script(text, ctx, Some(crate::sdkenv::quiet_env(Some(halt.clone()))));
     let returned = std::time::Instant::now();
     done.store(true, Ordering::SeqCst);
+    if let Some(f) = test_file {
+        let _ = std::fs::remove_file(f);
+    }
     let raised = raised_at.lock().unwrap().clone();
     drop(raiser); // detached: it only touches its own Arc clones
     let late = match raised {
